@@ -11,8 +11,10 @@ refine_layers on it.  z3 decides, for every value of the symbols:
   stored-area     every column's stored .area == shoelace area of its nodes, > 0
   convex          (lemma for the half-plane oracle) every column is convex, ccw
   disjoint        no point p lies strictly inside two columns
-  cover           p strictly inside old column k and off every new edge
-                  => p strictly inside some column
+  cover           p strictly inside old column k => p in the CLOSURE of some
+                  column (with `convex`: p off every edge => strictly inside one)
+  cover-area      (nonlinear families Q1/Q4 instead of `cover`) the columns the
+                  solver shows to lie inside old k have exactly k's area
   inside-old      p inside old k and inside current column j => j's vertices lie
                   in (closed) old k and j has k's surface
   conformity      no node lies in the open interior of any column edge
@@ -217,6 +219,8 @@ def same_term(a, b):
 # ---------------------------------------------------------------------------
 # the obligations
 
+COVER_MODE = {'RECT': 'point', 'HANG': 'point', 'CONC': 'point', 'Q1': 'area', 'Q4': 'area'}
+
 class Obl(object):
     """Collects obligations of one path, records failures with replay data."""
     def __init__(self, c, env, fam, tag, failures, distinct, samples, opkey):
@@ -290,6 +294,7 @@ def _check_plan(ob, geo, before, vol_before, promises_connections, check_volume,
                  extra=dict(col=poly_value(s['poly'])))
     # --- tiling ---------------------------------------------------------------
     ins = [inside(p, s['poly']) for s in after]
+    insc = [inside_closed(p, s['poly']) for s in after]
     for i in range(len(after)):
         for j in range(i + 1, len(after)):
             ob.prove(z3.Not(z3.And(ins[i], ins[j])), 'disjoint', 'no point strictly inside two columns',
@@ -300,7 +305,6 @@ def _check_plan(ob, geo, before, vol_before, promises_connections, check_volume,
         for i in range(n):
             k = frozenset((s['nodes'][i], s['nodes'][(i + 1) % n]))
             if len(k) == 2: edges.setdefault(k, (s['poly'][i], s['poly'][(i + 1) % n]))
-    off = z3.And(*[z3.Not(on_segment(p, a, b)) for a, b in edges.values()]) if edges else z3.BoolVal(True)
     cur = {id(s['obj']): s for s in after}
     unchanged = 0
     for k, s0 in enumerate(before):
@@ -313,9 +317,23 @@ def _check_plan(ob, geo, before, vol_before, promises_connections, check_volume,
                      'inside-old', 'untouched column keeps its surface')
             continue
         ink = inside(p, s0['poly'])
-        ob.prove(z3.Implies(z3.And(ink, off), z3.Or(*ins)), 'cover',
-                 'a point strictly inside old column %d and off every new edge is inside a column' % k,
-                 extra=dict(p=pt_value(p), old=poly_value(s0['poly'])))
+        if ob.fam.get('cover', COVER_MODE.get(ob.fam['kind'], 'point')) == 'point':
+            ob.prove(z3.Implies(ink, z3.Or(*insc)), 'cover',
+                     'a point strictly inside old column %d is in the closure of some column' % k,
+                     extra=dict(p=pt_value(p), old=poly_value(s0['poly'])))
+        else:
+            # nonlinear families: z3 does not decide the pointwise cover in useful
+            # time; it decides instead (i) which columns lie inside old k, (ii) that
+            # their areas add up to k's area; with `disjoint` (open interiors do
+            # not meet) this gives the closed cover (measure argument, see notes)
+            J = []
+            for j, s1 in enumerate(after):
+                r, _m = c.solve(z3.Not(z3.And(*[inside_closed(v, s0['poly']) for v in s1['poly']])))
+                if r == 'unsat': J.append(j)
+                elif r != 'sat': c.unknowns.append(dict(label='cover-area: classification of column %d' % j, info=None))
+            ob.prove(z3.Sum(*[shoelace(after[j]['poly']) for j in J]) == shoelace(s0['poly']) if J else z3.BoolVal(False), 'cover-area',
+                     'the %d columns lying inside old column %d have its total area' % (len(J), k),
+                     extra=dict(old=poly_value(s0['poly'])))
         for j, s1 in enumerate(after):
             goal = [inside_closed(v, s0['poly']) for v in s1['poly']]
             if s0['surf'] is not None:
